@@ -18,6 +18,7 @@ props! {
     c06: C06: "C06",
     c07: C07: "C07",
     c08: C08: "C08",
+    c09: C09: "C09",
     c10: C10: "C10",
     c11: C11: "C11",
     c12: C12: "C12",
